@@ -26,7 +26,7 @@ from common import Report, import_pyrefact, tier, seed
 from tlc import MachineryError, run_tlc
 
 PROP = "C18"
-FUNCS = ("alpha", "beta", "gamma", "delta", "al", "bl")
+FUNCS = ("alpha", "beta", "gamma", "delta", "al", "bl", "first", "Path")
 
 
 def modname(which: str, pkg: str) -> str:
@@ -47,6 +47,11 @@ def import_stmt(form: str, src: str, names: List[str], own: str, rel_src: Option
     if form == "alias":
         ren = {"alpha": "al", "al": "bl"}
         return "from {} import {}\n".format(target, ", ".join(f"{n} as {ren[n]}" if n in ren else n for n in names))
+    if form == "swap":
+        if "alpha" in names and "beta" in names:
+            rest = [n for n in names if n not in ("alpha", "beta", "first")]
+            return "from {} import {}\n".format(target, ", ".join(["alpha as first", "beta as alpha"] + rest))
+        return f"from {target} import {', '.join(names)}\n"
     if form == "star":
         return f"from {target} import *\n"
     if form == "module":
@@ -66,9 +71,9 @@ def build_tree(rec: dict) -> Dict[str, str]:
     base = ""
     if c["ball"] == "alpha":
         base += '__all__ = ["alpha"]\n\n\n'
-    for n in ("alpha", "beta", "_hid"):
+    for n in ("alpha", "beta", "_hid", "Path"):
         base += f'def {n}():\n    return "{n}@base"\n\n\n'
-    wanted_base = ["alpha", "beta"]
+    wanted_base = ["alpha", "beta", "Path"]
     mid_src = modname("base", pkg)
     rel = ".impl" if pkg in ("pkgrel", "subrel") else None
     mid = import_stmt(c["mid"], mid_src, wanted_base, "mid", rel) + '\n\ndef gamma():\n    return "gamma@mid"\n'
@@ -361,8 +366,8 @@ def main(argv=None) -> int:
     t = tier()
     rng = random.Random(seed())
     known = rep.known_entries()
-    cfg = "\n".join(["CONSTANTS", '  BaseAlls = {"none", "alpha"}', '  MidForms = {"from", "alias", "star", "module", "redef"}',
-                     '  TopForms = {"absent", "from", "alias", "star", "module", "redef"}',
+    cfg = "\n".join(["CONSTANTS", '  BaseAlls = {"none", "alpha"}', '  MidForms = {"from", "alias", "star", "module", "redef", "swap"}',
+                     '  TopForms = {"absent", "from", "alias", "star", "module", "redef", "swap"}',
                      '  ClientForms = {"from", "alias", "star", "module", "modalias"}',
                      '  Variants = {"plain", "dup", "infunc", "unused", "stacked", "late", "twostars", "basestar"}', '  Pkgs = {"flat", "pkgabs", "pkgrel", "subabs", "subrel"}',
                      f"  MaxUses = {2 if t == 'quick' else 3}", "  MaxStd = 1", '  StdPlaces = {"top"}', "INIT Init", "NEXT Next", "INVARIANT OriginsAreDefinitions", "INVARIANT Dump",
@@ -376,7 +381,12 @@ def main(argv=None) -> int:
         raise MachineryError("Imports: no cases")
     cap = 3500 if t == "quick" else 60000
     if len(recs) > cap:
-        recs = rng.sample(recs, cap)
+        # the cases in which a star import has to provide a name the tool has its own guess for are all kept
+        guess = [r for r in recs if "Path" in r["case"]["uses"] and "star" in (r["case"]["client"], r["case"]["mid"], r["case"]["top"])]
+        guess = guess if len(guess) <= cap // 4 else rng.sample(guess, cap // 4)
+        chosen = {id(r) for r in guess}
+        rest = [r for r in recs if id(r) not in chosen]
+        recs = guess + rng.sample(rest, cap - len(guess))
         rep.coverage["cases_sampled"] = True
     results = workers.run_tasks(_case, recs, init=_init, procs=16, timeout=300, fork_per_task=True)
     n_run = n_changed = 0
